@@ -34,6 +34,19 @@ def check_case(ctx, case):
     mean = sum(fx) / n
     scale = max(1.0, float(max(abs(v) for v in fx)))
     k = case['kind']
+    if case.get('with_cov'):
+        # one chain PLUS a covariance input: the resampled means cannot carry the covariance part of the error - the export is
+        # documented for observables on a single replica of a single ensemble and must refuse (never drop the input silently)
+        oc = o * pe.cov_Obs(1.5, 0.04, 'cvZ') if case['with_cov'] == 'mul' else o + pe.cov_Obs(0.3, 0.04, 'cvZ')
+        ctx.count('with-cov')
+        for what, call in (('jackknife', lambda: oc.export_jackknife()), ('bootstrap', lambda: oc.export_bootstrap(10, random_numbers=np.random.default_rng(1).integers(0, n, size=(10, n))))):
+            try:
+                res_ = call()
+            except Exception:
+                continue
+            oc.gamma_method(S=0)
+            probs.append(('violation', 'export-drops-covariance-input:' + what, 'an observable with the covariance input cvZ (S=0 error %r) was exported as %d plain numbers' % (float(oc.dvalue), len(res_))))
+        return probs
     if k == 'jack':
         j = o.export_jackknife()
         if len(j) != n + 1:
@@ -177,6 +190,8 @@ def gen_case(ctx):
     x = gen_data(rng, nprng, len(il), rng.choice(['white', 'ar09', 'int', 'const', 'alt']))
     kind = rng.choice(['jack', 'jack', 'boot', 'boot', 'seed'])
     case = {'kind': kind, 'name': rng.choice(['A|r1', 'ens', 'B|r2']), 'idl': [int(c) for c in il], 'x': [float(v).hex() for v in x]}
+    if rng.random() < 0.06:
+        case['with_cov'] = rng.choice(['mul', 'add'])
     if kind != 'jack':
         case['nboot'] = rng.choice([3, len(il) - 1, len(il), len(il) + 5, 2 * len(il)]) if kind == 'boot' else rng.choice([5, 20])
         case['nboot'] = max(1, min(case['nboot'], 200))
